@@ -179,6 +179,9 @@ def check(run, prog, tier):
                     ("quantarhei.qm.propagators.dmevolution.ReducedDensityMatrixEvolution", "ReducedDensityMatrix")):
         handout.check_nearest(run, "C02-K", prog, prog.cls(q), "TimeAxis", ctor,
                               "the state read at a stored time is that of the previous step and deviates from the exact exponential")
+    run.rule("C02-M", "the rotating frame is undone at the times of the time axis: every phase factor of a conversion from or to "
+                      "the frame takes its time from the axis' own points (which include its start)", minimum=3)
+    rule_M(run, prog)
     run.rule("C02-L", "what the propagated state is measured with is Hermitian: the scalar product of state vectors conjugates its "
                       "first vector; the eigenvector matrix of a Hamiltonian is inverted by its Hermitian conjugate", minimum=5)
     rule_L(run, prog)
@@ -708,3 +711,54 @@ def rule_L(run, prog):
                                        "by undiagonalize() returns a different, non-Hermitian matrix" % (nme, norm(x)), loc=f.loc(x))
     if nT < 3:
         raise AnalysisError("Hamiltonian.diagonalize/undiagonalize: only %d uses of the transposed eigenvector matrix (3 confirmed)" % nT)
+
+
+def rule_M(run, prog):
+    """The propagators rotate the initial state with exp(i Omega t0) at the first point t0 of the time axis (the frame is tied
+    to absolute time), so a stored state at time t differs from the laboratory one by phases exp(-i (Om_a - Om_b) t) with
+    the absolute t.  In every convert_from_RWA of the evolution classes and of the evolution superoperator each
+    exponential that contains the frame frequencies has a time factor taken from the points of the object's own time
+    axis (<axis>.data, or a loop variable running over them).  A grid rebuilt as step*arange(length) forgets the start
+    of the axis: on an axis that does not start at zero the converted states keep a residual rotation."""
+    rid = "C02-M"
+    n = 0
+    for q in ("quantarhei.qm.propagators.dmevolution.DensityMatrixEvolution",
+              "quantarhei.qm.propagators.statevectorevolution.StateVectorEvolution",
+              "quantarhei.qm.liouvillespace.evolutionsuperoperator.EvolutionSuperOperator"):
+        cls = prog.cls(q)
+        f = cls.methods.get("convert_from_RWA")
+        if f is None:
+            raise AnalysisError("%s.convert_from_RWA not found" % cls.name)
+        prog.consulted.add(f.relpath)
+        axis_points = set()       # names bound to points of the axis
+        for x in ast.walk(f.node):
+            if isinstance(x, ast.For):
+                it = x.iter
+                src = it.args[0] if isinstance(it, ast.Call) and call_name(it) == "enumerate" and it.args else it
+                if isinstance(src, ast.Attribute) and src.attr == "data" and norm(src.value) in ("self.TimeAxis", "self.time", "self.timeaxis"):
+                    tg = x.target.elts[-1] if isinstance(x.target, ast.Tuple) else x.target
+                    if isinstance(tg, ast.Name):
+                        axis_points.add(tg.id)
+            if isinstance(x, ast.Assign) and isinstance(x.targets[0], ast.Name):
+                v = x.value
+                b = v
+                while isinstance(b, ast.Subscript):
+                    b = b.value
+                if isinstance(b, ast.Attribute) and b.attr == "data" and norm(b.value) in ("self.TimeAxis", "self.time", "self.timeaxis"):
+                    axis_points.add(x.targets[0].id)
+        exps = [c for c in ast.walk(f.node) if isinstance(c, ast.Call) and call_name(c) == "exp"
+                and any(isinstance(y, ast.Name) and "Om" in y.id for y in ast.walk(c))]
+        if not exps:
+            raise AnalysisError("%s.convert_from_RWA: no phase factor with the frame frequencies found" % cls.name)
+        for c in exps:
+            n += 1
+            ok = any((isinstance(y, ast.Name) and y.id in axis_points) or
+                     (isinstance(y, ast.Attribute) and y.attr == "data" and norm(y.value) in ("self.TimeAxis", "self.time", "self.timeaxis"))
+                     for y in ast.walk(c))
+            run.obligation(rid, f.short, ok, key="absolute-times:" + norm(c)[:40],
+                           message="%s forms the phase factor %s with a time that is not taken from the points of the time axis: a grid "
+                                   "rebuilt from step and length starts at zero, the frame of the propagators at the start of the axis - "
+                                   "on an axis with a non-zero start the converted states keep a rotation exp(-i Omega t0)"
+                                   % (f.short, norm(c)[:60]), loc=f.loc(c))
+    if n < 3:
+        raise AnalysisError("only %d phase factors found in the conversions from the rotating frame (3 confirmed)" % n)
